@@ -5,13 +5,14 @@
     signed/unsigned 8-bit values (b != 0) and all pairs of the 16/32/64-bit boundary grids; the very same .py text
     is imported uncompiled with the staged Cython.Shadow as `cython` and must give the same list.  A third opinion
     (Python model of C truncation) names the side that is wrong.
-(b) Pure-mode programs: the complete product (declaration style x C type x expression) - 8 styles (cython.locals,
+(b) Pure-mode programs: the complete product (declaration style x C type x expression) - 13 styles (cython.locals,
     argument annotations, cython.declare with value, local annotations, cfunc+returns+locals, ccall with return
-    annotation, cfunc+exceptval, cclass attribute+method) x {int, long, short, double} x ~30 expressions (arithmetic,
+    annotation, cfunc+exceptval, cclass attribute+method, and five styles that STACK @cython.locals decorators: x above y,
+    y above x, three stacked, split around @cython.returns under @cython.cfunc, split around @cython.ccall/@cython.returns) x {int, long, short, double} x ~30 expressions (arithmetic,
     cdiv/cmod, casts, comparisons, builtins, cython.compiled branches) - is compiled and also executed uncompiled;
     every function is run on all pairs of an in-range input grid; results (type, repr) and exception types must agree.
 """
-import os, types
+import os, re, types
 from vlib import e2
 from props import _g3_cint as g
 
@@ -21,7 +22,7 @@ TECHNIQUE = 'exhaustive small-scope sweep: same pure-mode .py source compiled vs
 LEVEL_TEXT = ('cython.cdiv/cmod: all signed and unsigned 8-bit operand pairs (b != 0) and all pairs of the 16/32/64-bit boundary '
               'grids, cython.cast(T, v) for every integer/float/bint typedef x in-range values, each run compiled (real C) and '
               'uncompiled (staged Shadow) from the same source, plus a C-truncation model as third opinion.  Pure-mode programs: '
-              'complete product of 8 declaration styles x 4 C types x ~30 expressions, every function on all pairs of an in-range '
+              'complete product of 13 declaration styles (incl. 5 with stacked @cython.locals decorators) x 4 C types x ~30 expressions, every function on all pairs of an in-range '
               'grid, compiled vs the same file imported uncompiled.')
 LEVEL_NOTE = ('Inputs are restricted to the property\'s precondition: values and intermediates inside the declared C ranges, no zero '
               'divisor and no MIN/-1 for cdiv/cmod (C undefined behaviour), no bool where an int type is declared, floats exactly '
@@ -183,8 +184,10 @@ EXPRS_DBL = [('add', 'x + y', 1), ('sub', 'x - y', 1), ('mul', 'x * y', 1), ('td
              ('mod', 'x % y', 1), ('neg', '-x', 1), ('abs', 'abs(x)', 1), ('eq', 'x == y', 0), ('lt', 'x < y', 0),
              ('int', 'int(x)', 0), ('casti', 'cython.cast(cython.longlong, x)', 0), ('cond', 'x if x > y else y', 1),
              ('pow2', 'x ** 2', 1), ('castd', 'cython.cast(cython.double, x) + 1', 1)]
-STYLES = ['locals', 'annot', 'declare', 'localannot', 'cfunc', 'ccall', 'exceptval', 'cclass']
-VALUE_STYLES = ('cfunc', 'ccall', 'exceptval')       # declare a C return type: only for expressions of that type
+STYLES = ['locals', 'annot', 'declare', 'localannot', 'cfunc', 'ccall', 'exceptval', 'cclass',
+          # stacked decorators of the same dict-valued directive (their keyword dicts must be merged)
+          'stack_xy', 'stack_yx', 'stack3', 'stack_cfunc', 'stack_ccall']
+VALUE_STYLES = ('cfunc', 'ccall', 'exceptval', 'stack_cfunc', 'stack_ccall')       # declare a C return type: only for expressions of that type
 
 
 def program(name, style, T, RT, expr):
@@ -211,6 +214,21 @@ def program(name, style, T, RT, expr):
                 '    def __init__(self, k: %s):\n        self.k = k\n\n'
                 '    @cython.locals(x=%s, y=%s)\n    def m(self, x):\n        y = self.k\n        return %s\n\n'
                 'def %s(x, y):\n    return %s_K(y).m(x)\n' % (name, t, t, t, t, expr, name, name))
+    if style == 'stack_xy':
+        return '@cython.locals(x=%s)\n@cython.locals(y=%s)\ndef %s(x, y):\n    return %s\n' % (t, t, name, expr)
+    if style == 'stack_yx':
+        return '@cython.locals(y=%s)\n@cython.locals(x=%s)\ndef %s(x, y):\n    return %s\n' % (t, t, name, expr)
+    if style == 'stack3':
+        # three stacked decorators; the expression reads y through the local t typed by the middle one
+        e3 = re.sub(r'\by\b', 't', expr)
+        return ('@cython.locals(x=%s)\n@cython.locals(t=%s)\n@cython.locals(y=%s)\ndef %s(x, y):\n    t = y\n    return %s\n'
+                % (t, t, t, name, e3))
+    if style == 'stack_cfunc':
+        return ('@cython.cfunc\n@cython.locals(x=%s)\n@cython.returns(%s)\n@cython.locals(y=%s)\ndef %s_h(x, y):\n    return %s\n\n'
+                'def %s(x, y):\n    return %s_h(x, y)\n' % (t, rt, t, name, expr, name, name))
+    if style == 'stack_ccall':
+        return ('@cython.locals(y=%s)\n@cython.ccall\n@cython.returns(%s)\n@cython.locals(x=%s)\ndef %s(x, y):\n    return %s\n'
+                % (t, rt, t, name, expr))
     raise ValueError(style)
 
 
